@@ -202,7 +202,32 @@ func family(r *ev.Run, nmax int) int {
 			}
 			return true
 		}
-		if !(run(true, n) && run(false, n-n/4) && run(true, n/2) && run(false, n) && run(true, 3) && run(false, 4)) {
+		okAll := true
+		for _, pat := range [][]int{
+			{n, -(n - n/4), n / 2, -n, 3, -4},
+			{1, -1, n + 1, -(n + 2)},
+			{n, -1, 2 * n, -3 * n},
+			{n, -n / 2, n, -n / 2, n, -2 * n, 2, -1, 2*n + 3, -3 * n},
+		} {
+			// restart from fresh zero values for every pattern
+			st, q, ms, mq = nil, lists.Queue[int]{}, nil, nil
+			for _, c := range pat {
+				if c >= 0 {
+					okAll = okAll && run(true, c)
+				} else {
+					okAll = okAll && run(false, -c)
+				}
+			}
+			// push 3 / pop 1 until 2n inside, then drain
+			for i := 0; okAll && len(ms) < 2*n && i < 4*n+8; i++ {
+				okAll = run(true, 3) && run(false, 1)
+			}
+			okAll = okAll && run(false, len(ms)+1)
+			if !okAll {
+				break
+			}
+		}
+		if !okAll {
 			break
 		}
 	}
